@@ -8,6 +8,7 @@ import (
 
 	"github.com/ethereum/go-ethereum/common"
 
+	obskprdb "github.com/shutter-network/rolling-shutter/rolling-shutter/chainobserver/db/keyper"
 	kprdb "github.com/shutter-network/rolling-shutter/rolling-shutter/keyper/database"
 	"github.com/shutter-network/rolling-shutter/rolling-shutter/shdb"
 
@@ -16,11 +17,14 @@ import (
 
 // stateKey names one receiver database: layout "rich" ignores Set.
 type stateKey struct {
-	Layout, Set, Stored, Shares string
+	Fl, Layout, Set, Stored, Shares string
 }
 
 func keyFor(c Case) stateKey {
-	k := stateKey{Layout: c.Recv.Layout, Stored: c.Recv.Stored, Shares: c.Recv.Shares}
+	k := stateKey{Fl: c.Fl, Layout: c.Recv.Layout, Stored: c.Recv.Stored, Shares: c.Recv.Shares}
+	if k.Fl == "" {
+		k.Fl = "core"
+	}
 	if k.Layout == "solo" {
 		k.Set = c.M.Set
 		if k.Set == "Overflow" {
@@ -103,6 +107,11 @@ func (st *States) build(ctx context.Context, k stateKey) (*fakepg.DB, error) {
 			Threshold: Threshold, Started: true, ActivationBlockNumber: idx * 100}); err != nil {
 			return nil, fmt.Errorf("InsertBatchConfig: %w", err)
 		}
+		// chainobserver keyper_set (what the gnosis / service validators look the sender up in)
+		if err := obskprdb.New(pool).InsertKeyperSet(ctx, obskprdb.InsertKeyperSetParams{KeyperConfigIndex: idx, ActivationBlockNumber: idx * 100,
+			Keypers: keyperList(w.Members), Threshold: Threshold}); err != nil {
+			return nil, fmt.Errorf("InsertKeyperSet: %w", err)
+		}
 		eon := func(e int64) error {
 			return q.InsertEon(ctx, kprdb.InsertEonParams{Eon: e, Height: e, ActivationBlockNumber: idx * 100, KeyperConfigIndex: idx})
 		}
@@ -134,7 +143,7 @@ func (st *States) build(ctx context.Context, k stateKey) (*fakepg.DB, error) {
 	// stored keys and shares: under every eon value a message can name in this database
 	eonVals := append([]int64{}, configs...)
 	for r := 1; r <= len(w.Idents); r++ {
-		id := w.RankIdentity(r)
+		id := w.C04Ident(k.Fl, r)
 		for _, e := range eonVals {
 			var key []byte
 			switch {
